@@ -271,6 +271,23 @@ def commutative_loop(site):
             bad.append("assignment to an outer local")
         elif callee not in COMMUTATIVE_METHODS:
             bad.append("non-commutative update `%s`" % callee)
+    # loop-carried dependence through a "seen" set: the outcome of `set.insert(k)` / `set.contains(k)` on a set that outlives one iteration
+    # and is filled by the loop depends on which iterations came before
+    from .core.ir import walk_with_parents
+    filled = {lid for kind, callee, lid, node, inner in ws if not inner and callee in ("HashSet::insert", "BTreeSet::insert", "HashMap::insert", "BTreeMap::insert")}
+    for x, parents in walk_with_parents(body):
+        if x.get("k") != "MethodCall":
+            continue
+        callee = cshort(x.get("callee", x.get("name", "")))
+        lid = _root_local_through_calls(x["recv"])
+        if lid not in filled:
+            continue
+        par = [p for p in parents if p.get("k") not in ("DropTemps", "Use", "AddrOf")]
+        used = bool(par) and par[-1].get("k") not in ("SSemi",)
+        if callee in ("HashSet::insert", "BTreeSet::insert", "HashMap::insert", "BTreeMap::insert") and used:
+            bad.append("the result of `%s` on a set filled across iterations is used: the outcome depends on the visiting order" % callee)
+        if callee in ("HashSet::contains", "BTreeSet::contains", "HashMap::contains_key", "BTreeMap::contains_key", "HashMap::get", "BTreeMap::get"):
+            bad.append("`%s` reads a container that earlier iterations fill: the outcome depends on the visiting order" % callee)
     # early exits make the result depend on the visiting order
     for n in user_exits(body):
         bad.append("early exit from a hash-ordered loop")
